@@ -47,6 +47,18 @@ def NoTempAfterClose (L : Legacy) : Prop :=
     (UnlinkNotFaulted (session F cfg old calls explicitFinish).s.w →
       (session F cfg old calls explicitFinish).s.w.fs.view .tmp = none)
 
+/-- What "the complete new file" is for the ordinary client that feeds the body with
+sequential `archive_write_data` calls: the concatenation of the chunks, cut at the declared
+size, zero-extended to the declared size — independent of the chunking. -/
+theorem expected_sequential (size : Nat) (bs : List Bytes) :
+    expected size (bs.map Call.data) = padTo size ((bs.flatten).take size) := by
+  unfold expected
+  rw [foldl_place_data size bs [] 0 rfl (Nat.zero_le _)]
+  simp
+
+example : expected 5 ([[1, 2], [3]].map Call.data) = [1, 2, 3, 0, 0] := by
+  rw [expected_sequential]; decide
+
 /-- After close and after free the entry is settled (`Fin`). -/
 theorem session_settled (F : Nat → Bool) (cfg : Cfg) (old : Bytes) (calls : List Call) (explicitFinish : Bool)
     (hsafe : cfg.safe = true) (hleg : cfg.legacy = {}) (hwf : wellFormed cfg.size 0 calls) :
